@@ -15,7 +15,8 @@
 namespace dsim {
 
 struct Config {
-    int P, J, R, mode;               // ranks, jobs, rounds, mode 0 = master also works (mpi_skel), 1 = dedicated master
+    int P, J, R, mode;               // ranks, jobs, rounds, mode 0 = master also works (mpi_skel, master on rank 0), m >= 1 = dedicated master
+                                     // living on rank m-1 (MPIMaster takes the boss from comm.rank(), MPIWorker is told it: any rank is valid)
     std::vector<int> order;          // the J distinct job ids in the order handed to the master (any non-negative ids: the public
                                      // MPIMaster(comm, task_numbers, ...) constructor accepts an arbitrary list, mpi_skel passes a permutation of 0..J-1)
 };
@@ -48,17 +49,18 @@ struct Sim {
         delete master; master = 0;
     }
     bool requested(int job) const { for (size_t k = 0; k < cfg.order.size(); k++) if (cfg.order[k] == job) return true; return false; }
-    bool participates(int rank) const { return cfg.mode == 0 || rank != 0; }
+    int boss() const { return cfg.mode >= 1 ? cfg.mode - 1 : 0; }
+    bool participates(int rank) const { return cfg.mode == 0 || rank != boss(); }
     void start_round() {
         workers.assign(cfg.P, (pMPI::MPIWorker*)0);
         left.assign(cfg.P, false);
         entered.assign(cfg.P, false);
         runlog.push_back(std::vector<std::pair<int,int> >());
         std::vector<pMPI::JobId> tasks(cfg.order.begin(), cfg.order.end());
-        master = new pMPI::MPIMaster(boost::mpi::communicator(0), tasks, cfg.mode == 0);
+        master = new pMPI::MPIMaster(boost::mpi::communicator(boss()), tasks, cfg.mode == 0);
         // the master's own worker exists before its first order() (same statement sequence on rank 0)
         if (cfg.mode == 0) { workers[0] = new pMPI::MPIWorker(boost::mpi::communicator(0), 0); }
-        entered[0] = true;
+        entered[boss()] = true;
     }
     bool rank_active(int r) const {
         if (left[r]) return false;
@@ -85,7 +87,7 @@ struct Sim {
     }
     void step_rank(int r) {
         if (!entered[r]) {          // first step of a rank in this round: construct its worker (posts the first receive)
-            workers[r] = new pMPI::MPIWorker(boost::mpi::communicator(r), 0);
+            workers[r] = new pMPI::MPIWorker(boost::mpi::communicator(r), boss());
             entered[r] = true;
             return;
         }
@@ -96,11 +98,11 @@ struct Sim {
             if (r == 0) master->check_workers();
             if (workers[r]->is_finished()) { delete workers[r]; workers[r] = 0; left[r] = true; }
         } else {
-            if (r == 0) {
+            if (r == boss()) {
                 // for (; !master.is_finished();) { master.order(); master.check_workers(); }
                 master->order();
                 master->check_workers();
-                if (master->is_finished()) left[0] = true;
+                if (master->is_finished()) left[r] = true;
             } else {
                 worker_body(r);
                 if (workers[r]->is_finished()) { delete workers[r]; workers[r] = 0; left[r] = true; }
@@ -135,7 +137,7 @@ struct Sim {
         steps++;
         if (a.kind == 0) step_rank(a.a); else simnet::net().deliver(a.a, a.b);
         bool done = true;
-        for (int r = 0; r < cfg.P; r++) if (!left[r] && (participates(r) || r == 0)) done = false;
+        for (int r = 0; r < cfg.P; r++) if (!left[r]) done = false;
         if (done && violation.empty()) end_round();
     }
     // fair continuation: cycle over all enabled actions; returns false if the bound is hit
